@@ -90,9 +90,10 @@ def gen_new(w, r, kinds=None):
     m = w.m
     kinds = kinds or list(MAXN)
     cands = [k for k in kinds if sum(1 for l in m.by_kind(k) if "." not in l) < w.cfg.get("max_" + k, MAXN[k])]
+    wts = w.cfg.get("kind_weights", {})
+    cands = [k for k in cands if wts.get(k, 1.0) > 0]
     if not cands:
         return None
-    wts = w.cfg.get("kind_weights", {})
     kind = r.choices(cands, weights=[wts.get(k, 1.0) for k in cands])[0]
     op = {"op": "new", "kind": kind, "label": w.fresh(kind)}
     if r.random() < w.cfg.get("p_explicit_uuid", 0.85):
